@@ -205,6 +205,10 @@ def _are_sets_equal(x, y, _exact_strings, _delta):
     for x_element in x:
         if not _set_contains(x_element, y, _exact_strings, _delta):
             return False
+    # Elements are matched approximately, so containment has to hold both ways
+    for y_element in y:
+        if not _set_contains(y_element, x, _exact_strings, _delta):
+            return False
     return True
 
 
